@@ -72,7 +72,7 @@ func vpCheckReleased(t *Tunnel, trs []*vpTransport, label string) {
 
 //vp:property C11
 //vp:set good 6 8
-//vp:bounds websocket transport; 0..good well-formed packets (handshake, tunnel-create, tunnel-auth, channel-create, then DATA) followed by each of six ways the client side can end: connection drop, CLOSE_CHANNEL, out-of-order handshake, unframeable bytes, unknown packet type + drop, a further CHANNEL_CREATE for another host; the backend is quiet or has one chunk in flight towards the client, and stays open or hangs up first (the relay goroutine runs whenever the packet loop waits for the client); dial succeeding or failing
+//vp:bounds websocket transport; 0..good well-formed packets (handshake, tunnel-create, tunnel-auth, channel-create, then DATA) followed by each of six ways the client side can end: connection drop, CLOSE_CHANNEL, out-of-order handshake, unframeable bytes, unknown packet type + drop, a further CHANNEL_CREATE for another host; the backend is quiet or has one chunk in flight towards the client, and stays open or hangs up first (the relay goroutine runs whenever the packet loop waits for the client); dial succeeding or failing; writes to the client failing from the n-th response on (n = 1..5) or never
 //vp:assume one cooperative schedule (goroutines switch where the running one waits; the rest run to completion after the handler returns); "bounded time" is reduced to "no goroutine of the tunnel is left parked forever"
 //vp:reach ended
 func VP_C11_ws() {
@@ -87,6 +87,8 @@ func VP_C11_ws() {
 	}
 	vpBackendHangsUp = vpBool("host-hangs-up-first")
 	tr.yieldOnRead = true // the relay goroutine runs while the packet loop waits for the client
+	// the client's connection may be reset under the gateway's feet: from some response on, writes to it fail
+	tr.failWriteAt = vpIntRange("client-write-fails-from-response", 0, 5)
 	g := &Gateway{}
 	id := vpUser()
 	t := &Tunnel{RDGId: "conn-1", User: id, RemoteAddr: "10.0.0.1:1"}
